@@ -135,18 +135,18 @@ impl GseDecapMemory for SimpleGseMemory {
     fn take_frag(&mut self, frag_id: u8) -> Result<MemoryContext, DecapMemoryError> {
         let idx = frag_id as usize % self.max_frag_id;
 
+        // the slot may hold the context of another frag id: leave it in place
+        match &self.frags[idx] {
+            Some((context, _)) if context.frag_id == frag_id => (),
+            _ => return Err(DecapMemoryError::UndefinedId),
+        }
+
         let mut frag: Option<MemoryContext> = None;
         mem::swap(&mut self.frags[idx], &mut frag);
 
         match frag {
             None => Err(DecapMemoryError::UndefinedId),
-            Some((context, pdu)) => {
-                if context.frag_id == frag_id {
-                    Ok((context, pdu))
-                } else {
-                    Err(DecapMemoryError::UndefinedId)
-                }
-            }
+            Some((context, pdu)) => Ok((context, pdu)),
         }
     }
 
